@@ -243,6 +243,39 @@ func (r *symref) load() value {
 			vals[j] = bits
 			count[bits]++
 		}
+		// Affine runs: table[i] = i + delta over long index ranges (identity and
+		// case-folding tables). Few runs => a small term.
+		if w > 0 && w <= 64 {
+			type arun struct {
+				lo, hi int
+				delta  uint64
+			}
+			var aruns []arun
+			for j := 0; j < len(vals); {
+				d := (vals[j] - uint64(j)) & mask(w)
+				h := j
+				for h+1 < len(vals) && (vals[h+1]-uint64(h+1))&mask(w) == d {
+					h++
+				}
+				aruns = append(aruns, arun{j, h, d})
+				j = h + 1
+			}
+			if len(aruns) <= 12 && len(count) > 12 {
+				var idxw *Term
+				if w < 64 {
+					idxw = mkExtract(r.idx, w-1, 0)
+				} else {
+					idxw = r.idx
+				}
+				lastRun := aruns[len(aruns)-1]
+				at := mkBin(opAdd, idxw, mkConst(w, lastRun.delta))
+				for q := len(aruns) - 2; q >= 0; q-- {
+					ru := aruns[q]
+					at = mkIte(mkCmp(opUle, r.idx, mkConst(64, uint64(ru.hi))), mkBin(opAdd, idxw, mkConst(w, ru.delta)), at)
+				}
+				return mkSym(k, at)
+			}
+		}
 		var def uint64
 		best := -1
 		for v, c := range count {
